@@ -159,3 +159,81 @@ fn c05_mx_parse_side() {
 fn c05_cname_parse_side() {
     let _ = one_name_rdata_parse!(Cname, 0, cname);
 }
+
+// @tier: thorough
+// @timeout: 4000
+// @funcs: Message::answer, QuestionSection::answer (Question::skip, ParsedName::skip), RecordSection::next, ParsedRecord::parse, RecordHeader::parse, ParsedName::parse_ref, ParsedRecord::{rtype,class,ttl,rdlen,to_record}, A::parse, RecordHeader::parse_into_record
+// @bound: every 33-octet message with ID and flags zero, QDCOUNT = 1, ANCOUNT = 1, a root question name (QTYPE/QCLASS symbolic) and 16 symbolic octets behind the question (owner name possibly compressed into the header or the question, TYPE, CLASS, TTL, RDLENGTH, RDATA): the answer section yields exactly one item; it is a record <=> the reference reader accepts the owner and header + RDLENGTH octets fit into the message; its fields are the referenced octets; typed A parsing succeeds <=> TYPE = A needs RDLENGTH = 4 (other types: not this type); afterwards the iterator is exhausted; nothing panics
+// @assume: reference reader decides the owner within 1 label of at most 4 octets and 1 hop
+// @unwindset: ::parse_ref$.0=2; ::parse_ref$.1=2; ::parse_ref$.2=2
+// @mem: 30
+// @stub: core::slice::index::slice_index_fail -> panic without formatted message
+// @termination: true
+// @outside: several records, other typed RDATA, authority/additional sections
+#[kani::proof]
+#[kani::unwind(8)]
+#[kani::stub(core::slice::index::slice_index_fail, crate::stubs::slice_index_fail)]
+fn c01_message_answer_one_record() {
+    use domain::base::iana::Rtype;
+    use domain::rdata::A;
+    const N: usize = 33;
+    let mut buf: [u8; N] = kani::any();
+    buf[0] = 0;
+    buf[1] = 0;
+    buf[2] = 0;
+    buf[3] = 0;
+    buf[4] = 0;
+    buf[5] = 1;
+    buf[6] = 0;
+    buf[7] = 1;
+    buf[8] = 0;
+    buf[9] = 0;
+    buf[10] = 0;
+    buf[11] = 0;
+    buf[12] = 0; // root question name; QTYPE/QCLASS at 13..17
+    let mut out = [0u8; 32];
+    let want = ref_read_name_bl(&buf[..], 17, &mut out, 1, 1, 4);
+    kani::assume(want != RefName::Budget);
+    let msg = Message::from_octets(&buf[..]).unwrap();
+    let mut ans = match msg.answer() {
+        Ok(a) => a,
+        Err(_) => {
+            assert!(false, "a well-formed question section must be skippable");
+            return;
+        }
+    };
+    let first = ans.next();
+    let complete = match want {
+        RefName::Name(_, after, _) => {
+            after + 10 <= N && after + 10 + (((buf[after + 8] as usize) << 8) | buf[after + 9] as usize) <= N
+        }
+        _ => false,
+    };
+    match first {
+        Some(Ok(rec)) => {
+            assert!(complete);
+            if let RefName::Name(flen, after, _) = want {
+                assert!(rec.owner().compose_len() as usize == flen);
+                assert!(rec.rtype().to_int() == ((buf[after] as u16) << 8 | buf[after + 1] as u16));
+                assert!(rec.class().to_int() == ((buf[after + 2] as u16) << 8 | buf[after + 3] as u16));
+                assert!(rec.ttl().as_secs() == u32::from_be_bytes([buf[after + 4], buf[after + 5], buf[after + 6], buf[after + 7]]));
+                let rdlen = ((buf[after + 8] as u16) << 8) | buf[after + 9] as u16;
+                assert!(rec.rdlen() == rdlen);
+                match rec.to_record::<A>() {
+                    Ok(Some(a)) => {
+                        assert!(rec.rtype() == Rtype::A && rdlen == 4);
+                        let o = a.data().addr().octets();
+                        assert!(o[0] == buf[after + 10] && o[3] == buf[after + 13]);
+                    }
+                    Ok(None) => assert!(rec.rtype() != Rtype::A),
+                    Err(_) => assert!(rec.rtype() == Rtype::A && rdlen != 4),
+                }
+                kani::cover!(rec.rtype() == Rtype::A && rdlen == 4 && flen > 1, "typed A record under a non-root owner");
+            }
+        }
+        Some(Err(_)) => assert!(!complete),
+        None => assert!(false, "ANCOUNT = 1 but the section is empty"),
+    }
+    // exactly one item: a second call yields nothing (fused after an error too)
+    assert!(ans.next().is_none());
+}
